@@ -198,6 +198,10 @@ impl Ctx {
         self.inner.lock().unwrap().tags.get(key).map(|s| s.contains(item)).unwrap_or(false)
     }
 
+    pub fn tags_matching(&self, key: &str, needle: &str) -> bool {
+        self.inner.lock().unwrap().tags.get(key).map(|s| s.iter().any(|t| t.contains(needle))).unwrap_or(false)
+    }
+
     pub fn tag_count(&self, key: &str) -> usize {
         self.inner.lock().unwrap().tags.get(key).map(|s| s.len()).unwrap_or(0)
     }
@@ -219,6 +223,9 @@ impl Ctx {
 
     /// Declares a coverage obligation; an unmet one makes the run inconclusive.
     pub fn obligation(&self, name: &str, met: bool) {
+        if self.only.is_some() {
+            return;
+        }
         let mut g = self.inner.lock().unwrap();
         g.obligations.insert(name.to_string(), met);
         if !met {
@@ -422,8 +429,8 @@ impl Ctx {
 fn one_line(j: &J) -> String {
     let s = j.to_string();
     let s: String = s.split_whitespace().collect::<Vec<_>>().join(" ");
-    if s.len() > 600 {
-        format!("{}...", &s[..600])
+    if s.chars().count() > 600 {
+        format!("{}...", s.chars().take(600).collect::<String>())
     } else {
         s
     }
